@@ -310,7 +310,8 @@ class CleanRunner:
             return None
         for r in reqs:
             d = clean_defects(r)
-            stats.case(nontrivial=(d == 1), key=r.hex(),
+            stats.case(scenario={"part": "clean", "stream": vlib.jsonable(r)} if d == 1 and len(stats.samples) < 2 else None,
+                       nontrivial=(d == 1), key=r.hex(),
                        classes=[label, "clean_valid" if d == 0 else "clean_defects_%d" % min(d, 3)] +
                        (["clean_number_ge_2^64"] if r[5:-1].isdigit() and int(r[5:-1]) >= ULONG else []) +
                        (["clean_number_ge_2^32"] if r[5:-1].isdigit() and (1 << 32) <= int(r[5:-1]) < ULONG else []) +
@@ -706,6 +707,13 @@ def run_one(tree, sc, stats, wid, cache={}):
     return (v, sc) if v else None
 
 
+def debug_log(msg, sc):
+    p = os.environ.get("VERIF_DEBUG_LOG")
+    if p and msg:
+        with open(p, "a") as f:
+            f.write(json.dumps({"msg": msg, "scenario": vlib.jsonable(sc)}) + "\n")
+
+
 def worker(job):
     kind, tree, wid, arg = job
     stats = vlib.Stats()
@@ -722,9 +730,15 @@ def worker(job):
         found = {}
 
         def runfn(sc, stats):
-            v = r.run_batch(vlib.unjson(sc), stats, "clean_random")
+            try:
+                v = r.run_batch(vlib.unjson(sc), stats, "clean_random")
+            except Exception:
+                import traceback
+                debug_log("EXC " + traceback.format_exc(), sc)
+                raise
             if v:
                 found["v"] = v
+                debug_log(v[0], sc)
                 return v[0]
         vlib.hyp_search(clean_stream, runfn, n, seed, stats)
         if stats.violations and "v" in found:
@@ -739,7 +753,17 @@ def worker(job):
     elif kind == "spawn_hyp":
         seed, n = arg
         r = SpawnRunner(tree, wid)
-        vlib.hyp_search(spawn_scenario, r.run, n, seed, stats)
+
+        def runsp(sc, stats):
+            try:
+                v = r.run(sc, stats)
+            except Exception:
+                import traceback
+                debug_log("EXC " + traceback.format_exc(), sc)
+                raise
+            debug_log(v, sc)
+            return v
+        vlib.hyp_search(spawn_scenario, runsp, n, seed, stats)
     return stats
 
 
